@@ -1505,9 +1505,11 @@ impl Add<Time> for DateTime {
 
     fn add(self, rhs: Time) -> Self::Output {
         let nanos = self.as_nanos() + rhs.as_nanos() as i128;
+        let (days, nanoseconds) = nanos_to_days_nanos(nanos)
+            .unwrap_or_else(|_| panic!("Addition would result into an out of range datetime"));
         Self {
-            days: (nanos / NANOS_PER_DAY as i128) as i32,
-            nanoseconds: (nanos % NANOS_PER_DAY as i128) as u64,
+            days,
+            nanoseconds,
             offset: self.offset,
         }
     }
@@ -1523,9 +1525,11 @@ impl Sub<Time> for DateTime {
 
     fn sub(self, rhs: Time) -> Self::Output {
         let nanos = self.as_nanos() - rhs.as_nanos() as i128;
+        let (days, nanoseconds) = nanos_to_days_nanos(nanos)
+            .unwrap_or_else(|_| panic!("Subtraction would result into an out of range datetime"));
         Self {
-            days: (nanos / NANOS_PER_DAY as i128) as i32,
-            nanoseconds: (nanos % NANOS_PER_DAY as i128) as u64,
+            days,
+            nanoseconds,
             offset: self.offset,
         }
     }
@@ -1541,9 +1545,11 @@ impl Add<Duration> for DateTime {
 
     fn add(self, rhs: Duration) -> Self::Output {
         let nanos = self.as_nanos() + rhs.as_nanos() as i128;
+        let (days, nanoseconds) = nanos_to_days_nanos(nanos)
+            .unwrap_or_else(|_| panic!("Addition would result into an out of range datetime"));
         Self {
-            days: (nanos / NANOS_PER_DAY as i128) as i32,
-            nanoseconds: (nanos % NANOS_PER_DAY as i128) as u64,
+            days,
+            nanoseconds,
             offset: self.offset,
         }
     }
@@ -1559,9 +1565,11 @@ impl Sub<Duration> for DateTime {
 
     fn sub(self, rhs: Duration) -> Self::Output {
         let nanos = self.as_nanos() - rhs.as_nanos() as i128;
+        let (days, nanoseconds) = nanos_to_days_nanos(nanos)
+            .unwrap_or_else(|_| panic!("Subtraction would result into an out of range datetime"));
         Self {
-            days: (nanos / NANOS_PER_DAY as i128) as i32,
-            nanoseconds: (nanos % NANOS_PER_DAY as i128) as u64,
+            days,
+            nanoseconds,
             offset: self.offset,
         }
     }
